@@ -3,9 +3,29 @@ import corpora
 import genprop
 
 
+def alnum_differential(res):
+    """IsValidAlpha / IsNumeric: rebuilt Go functions against the extracted model (C06_alpha, C06_numeric prove model = spec)"""
+    import recog
+    probe, hooked = recog.build_probe(res)
+    if probe is None:
+        return
+    inp = recog.gen_inputs("alnum", res.seed, res.tier)
+    for fn in ("IsValidAlpha", "IsNumeric"):
+        mism = recog.differential(res, fn, inp, probe, "exported recognizer")
+        for hexin, g, m in (mism or [])[:3]:
+            if hexin == "<length mismatch>":
+                continue
+            sh, g2, m2 = recog.shrink(probe, fn, hexin, g, m)
+            res.violation({"kind": "spec-violation", "function": fn, "input_hex": sh, "input_repr": repr(recog.unhex(sh)),
+                           "implementation": g2, "model_and_spec": m2,
+                           "what": "C06_%s proves model = documented language for every byte string; /repo's %s differs from the model on this input"
+                                   % ("alpha" if fn == "IsValidAlpha" else "numeric", fn)})
+
+
 def check(res):
     corpus = corpora.c06(res.seed, res.tier)
     genprop.run(res, "C06", PROPFILE, corpus)
+    alnum_differential(res)
 
 
 PROPFILE = "theories/Properties/C0456.v"
